@@ -1,5 +1,7 @@
 """Shared run/monitor/shrink logic for all checks whose cases are (file-object stack, op history)."""
 from common import sexp
+import filestack
+from common import exc_name
 from filestack import (abs_window, build_real, clamps, is_fixed, is_readonly, node_sexp, run_real, view_content,
                        well_formed)
 from framework import CaseResult, Check
@@ -65,7 +67,16 @@ class StackCheck(Check):
             for l in leaves:
                 if hasattr(l, 'log'):
                     l.log.clear()
-            out = run_real(f, [op])[0]
+            if op[0] == 'is':
+                # the file object the wrapper was given is moved by its owner (another wrapper on it, the caller): for a wrapper
+                # whose position IS the inner file's position (CBCFileIO) this is just another way of seeking
+                try:
+                    out = 'n:%d' % filestack.last_inner.seek(op[1])
+                except Exception as e:  # noqa
+                    out = 'e:' + exc_name(e)
+                op = ('s', op[1], 0)
+            else:
+                out = run_real(f, [op])[0]
             outs.append(out)
             after = [l.getvalue() for l in leaves]
             info['op:' + op[0]] = info.get('op:' + op[0], 0) + 1
@@ -115,8 +126,10 @@ class StackCheck(Check):
                     key = self.gap_key
                 break
         qless = [o for o, op in zip(outs, ops) if op[0] != 'q']
+        if any(op[0] == 'is' for op in ops):
+            info['inner-file moved between calls'] = 1
         real = ' '.join(qless) + ' | ' + ' '.join((l.getvalue().hex() or '-') for l in leaves)
-        model = drv.ask(('fileops', node_sexp(node), tuple(o for o in ops[:len(outs)] if o[0] != 'q')))
+        model = drv.ask(('fileops', node_sexp(node), tuple((('s', o[1], 0) if o[0] == 'is' else o) for o in ops[:len(outs)] if o[0] != 'q')))
         return CaseResult(real, model, mon, sig=real if nontrivial else '', key=key, info=info)
 
     def shrink(self, case):
